@@ -1,5 +1,7 @@
 """Back ends: z3 (primary) and cvc5 on z3's `unknown`s (DESIGN.md 2.7)."""
 import os
+import shutil
+import subprocess
 import re
 import subprocess
 import tempfile
@@ -115,7 +117,53 @@ def check_valid(pc, goal, timeout_ms=None, use_cvc5=True, seed=0, facts=None):
         return {'status': 'unsat', 'backend': 'z3/seed2', 'seconds': total, 'model': None}
     if r == z3.sat:
         return {'status': 'sat', 'backend': 'z3', 'seconds': total, 'model': s.model()}
+    # last resort: a small portfolio of the z3 command-line solver on the full query with different seeds (the sequence solver's run
+    # time varies several-fold with the seed; three seeds side by side make the verdict of a slow-but-provable obligation independent of
+    # the one seed the harness happens to pass).  Only `unsat` is taken from it (a proof); anything else leaves the obligation undecided.
+    if full_smt2 is not None and os.environ.get('VERIF_PORTFOLIO', '1') != '0':
+        t0 = time.time()
+        if _portfolio_unsat(full_smt2, max(20, int(2 * timeout_ms / 1000)), seed):
+            return {'status': 'unsat', 'backend': 'z3/portfolio', 'seconds': total + time.time() - t0, 'model': None}
+        total += time.time() - t0
     return {'status': 'unknown', 'backend': 'z3', 'seconds': total, 'model': None, 'reason': reason}
+
+
+Z3_CLI = shutil.which('z3-new') or shutil.which('z3')
+
+
+def _portfolio_unsat(smt2, seconds, seed):
+    if not Z3_CLI:
+        return False
+    import tempfile
+    fd, path = tempfile.mkstemp(suffix='.smt2', prefix='pyvc_')
+    procs = []
+    try:
+        with os.fdopen(fd, 'w') as f:
+            f.write(smt2)
+            if '(check-sat)' not in smt2:
+                f.write('\n(check-sat)\n')
+        for k in (seed + 11, seed + 23, seed + 37):
+            procs.append(subprocess.Popen([Z3_CLI, '-T:%d' % seconds, 'smt.random_seed=%d' % k, 'sat.random_seed=%d' % k, path],
+                                          stdout=subprocess.PIPE, stderr=subprocess.DEVNULL, text=True))
+        deadline = time.time() + seconds + 5
+        pending = list(procs)
+        while pending and time.time() < deadline:
+            for pr in list(pending):
+                if pr.poll() is not None:
+                    pending.remove(pr)
+                    out = (pr.stdout.read() or '').strip().split('\n')[0].strip()
+                    if out == 'unsat':
+                        return True
+            time.sleep(0.1)
+        return False
+    finally:
+        for pr in procs:
+            if pr.poll() is None:
+                pr.kill()
+        try:
+            os.unlink(path)
+        except OSError:
+            pass
 
 
 def _to_cvc5(smt2):
